@@ -151,13 +151,27 @@ def gen_raw(rng, ntopics):
     return ["sendraw", topic, key, msgs, rng.randrange(12)]
 
 
-def gen_hook(rng, ntopics, next_sid, allow_stop):
+def threshold_msgs(rng, cfg):
+    """messages that by themselves meet the count or the byte threshold of the configuration (a callback that submits
+    a threshold's worth: if its batch cannot go out at once - one is in flight - it is due the moment that one resolves)"""
+    n, b = cfg["n"], cfg["b"]
+    if not cfg["batch_send"]:
+        return gen_msgs(rng) or [1]
+    if 1 <= n <= 6 and (rng.random() < 0.7 or not 1 <= b <= 200):
+        return [rng.randrange(0, 12) for _ in range(n)]
+    if 1 <= b <= 200:
+        return [b + rng.randrange(0, 8)]
+    return gen_msgs(rng)
+
+
+def gen_hook(rng, ntopics, next_sid, allow_stop, cfg=None):
     """a callback that calls back into the Producer: 1-2 of send_messages / cancel of some send / stop()"""
     hook = []
     for _ in range(rng.choice([1, 1, 2])):
         x = rng.random()
         if x < 0.4:
-            hook.append(["s", rng.randrange(ntopics), rng.choice(KEYS), gen_msgs(rng)])
+            msgs = threshold_msgs(rng, cfg) if (cfg is not None and rng.random() < 0.6) else gen_msgs(rng)
+            hook.append(["s", rng.randrange(ntopics), rng.choice(KEYS), msgs])
         elif x < 0.75 or not allow_stop:
             hook.append(["c", rng.randrange(next_sid + 1)])
         else:
@@ -171,7 +185,8 @@ def gen_scenario(rng, focus, length=None, cfg=None, hooks=None):
     cfg = cfg or gen_cfg(rng, focus)
     real = RealRun(cfg)
     if hooks is None:
-        hooks = 0.12 if rng.random() < 0.25 else 0.0
+        # (C19: more of them - a send made from a callback meets a threshold while its own batch is still "in flight")
+        hooks = (0.25 if rng.random() < 0.4 else 0.0) if focus == "C19" else (0.12 if rng.random() < 0.25 else 0.0)
     hook_stop_left = 1
     events = []
     length = length or rng.choice([6, 10, 16, 24, 32, 40])
@@ -183,12 +198,20 @@ def gen_scenario(rng, focus, length=None, cfg=None, hooks=None):
     # requests before send_produce_request returns - one by one, or every request of a stretch (a failure known
     # without I/O that repeats until the attempts run out)
     sync = (rng.choice(["some", "some", "runs"]) if rng.random() < 0.2 else None) if not hooks else None
+    # … WITH re-entrant callbacks (half of the scenarios that have them): ONE synchronous answer at a time, queued right
+    # before a plain send and withdrawn after it if that call made no request - so that it is consumed by a request
+    # made in that call, outside any callback, and the sends it fires run their callbacks INSIDE the completion that
+    # runs inside _send_batch() (a callback that sends there reaches the thresholds while the batch is "in flight";
+    # the completion's re-check must dispatch it).  A synchronous answer consumed inside a callback would split a
+    # step in the middle of the callback, which the trace format cannot express.
+    sync_h = bool(hooks) and rng.random() < 0.6
     sync_modes = (["none", "empty", "empty", "allfail:cc", "allfail:tc", "err:lu"] if cfg["acks"] == 0 else
                   ["err:lu", "err:lu", "err:ua", "err:pu", "err:cc", "err:b19", "allok", "allok", "allerr:6", "allerr:%d" % style["code"],
                    "allfail:cc", "allfail:b7", "empty", "none"])
     next_sid = 0
     stopped = False
     tail = None
+    twins = []
 
     def emit(ev):
         events.append(ev)
@@ -201,6 +224,8 @@ def gen_scenario(rng, focus, length=None, cfg=None, hooks=None):
     w_stop = {"C19": 0.04, "C01": 0.025, "C09": 0.012}[focus]
     w_cancel = {"C19": 0.12, "C01": 0.06, "C09": 0.04}[focus]
     while len(events) < length:
+        if getattr(real, "dead", False):
+            break  # an exception escaped the implementation: the run ends there (it is an observation of the last step)
         pend = real.pending_requests()
         timers = real.pending_timers()
         if tail is not None:
@@ -274,12 +299,28 @@ def gen_scenario(rng, focus, length=None, cfg=None, hooks=None):
             if rng.random() < 0.06:
                 emit(gen_raw(rng, ntopics))
             elif hooks and rng.random() < hooks:
-                hook = gen_hook(rng, ntopics, next_sid, hook_stop_left > 0 and not stopped)
+                hook = gen_hook(rng, ntopics, next_sid, hook_stop_left > 0 and not stopped, cfg)
                 if any(a[0] == "x" for a in hook):
                     hook_stop_left -= 1
                 emit(["sendh", next_sid, rng.randrange(ntopics), rng.choice(KEYS), gen_msgs(rng), hook])
+            elif rng.random() < 0.07:
+                # CONTENT-EQUAL sends (same topic, key and message bytes: null / empty values): the Producer must tell
+                # them apart by their Deferred, not by value - half of the time the later twin is cancelled at once
+                if twins and rng.random() < 0.75:
+                    t_, k_, m_ = rng.choice(twins)
+                else:
+                    t_, k_, m_ = rng.randrange(ntopics), rng.choice(KEYS), rng.choice([[None], [0], [None, 0], [0, 0], [None, None]])
+                    twins.append((t_, k_, m_))
+                emit(["send", next_sid, t_, k_, list(m_)])
+                if rng.random() < 0.5 and not stopped:
+                    emit(["cancel", next_sid])
             else:
+                use_sync = sync_h and not stopped and not real.client.sync_queue and rng.random() < 0.5
+                if use_sync:
+                    emit(["syncnext", rng.choice(sync_modes)])
                 emit(["send", next_sid, rng.randrange(ntopics), rng.choice(KEYS), gen_msgs(rng)])
+                if use_sync and real.client.sync_queue:
+                    emit(["syncclear"])
         # sends made by hooks take ids too; a hook may have called stop()
         next_sid = real.next_sid
         if real.producer.stopping and not stopped:
